@@ -116,6 +116,7 @@ type Contracts struct {
 	Abstract map[string]*AbstractType // key: importpath.Name
 	Types    map[string]*TypeSpec
 	PtrIfaces map[string]bool // interfaces whose dynamic values are always pointers
+	Assumed  []string    // assumptions declared in contract files (assumed-stable, ...)
 	NonNil   []string    // package-level variables assumed non-nil (ledger)
 	ChanMsgs []*ChanSpec // package-level message invariants: chanmsg T (v): P
 	Files    []string
@@ -307,10 +308,18 @@ func (cs *Contracts) LoadContractFile(path, pkgPath string, pkgImports map[strin
 				cs.errf(ctx, c.line, "shared outside type block")
 				continue
 			}
+			// shared f, g stable P            P is proved at every write / close / atomic store
+			// shared f, g assumed-stable P    P is assumed (listed among the unchecked assumptions)
+			assumed := strings.Contains(rest, "assumed-stable")
+			rest = strings.Replace(rest, "assumed-stable", "stable", 1)
 			fs := strings.SplitN(rest, "stable", 2)
 			var cl *Clause
 			if len(fs) == 2 {
 				cl = mk("stable", strings.TrimSpace(fs[1]), nil)
+				if assumed {
+					cl.Kind = "assumed-stable"
+					cs.Assumed = append(cs.Assumed, fmt.Sprintf("%s: shared %s assumed-stable %s", curT.Key, strings.TrimSpace(fs[0]), strings.TrimSpace(fs[1])))
+				}
 			}
 			for _, x := range strings.Split(fs[0], ",") {
 				curT.Shared[strings.TrimSpace(x)] = cl
@@ -684,6 +693,10 @@ func (cs *Contracts) funcKey(ctx *FileCtx, hdr string, iface bool) (string, stri
 			return "", "", fmt.Errorf("interface contract needs Type.Method: %q", hdr)
 		}
 		return "iface:" + cs.qualify(ctx, hdr[:i]) + "." + hdr[i+1:], hdr, nil
+	}
+	if strings.HasPrefix(hdr, "fieldfn:") {
+		// fieldfn:Type.field — calls of a func-typed struct field of a type of this package
+		return "fieldfn:" + ctx.PkgPath + "." + strings.TrimPrefix(hdr, "fieldfn:"), hdr, nil
 	}
 	if strings.HasPrefix(hdr, "var ") {
 		n := strings.TrimSpace(hdr[4:])
